@@ -121,7 +121,7 @@ pub fn exec(label: &str, input: &str, out: &mut CaseOut) {
 }
 
 pub fn generate(ctx: &mut Ctx) {
-    for v in crate::c01::named_cases() {
+    for v in crate::c01::extreme_numbers().into_iter().chain(crate::c01::named_cases()) {
         ctx.case("wf:named", &vx::show(&v));
     }
     // numbers: the magnitudes the property names
